@@ -42,11 +42,14 @@ def main():
             uid += n
             if req.get("only_ids"):
                 us = [u for u in us if u["id"] in req["only_ids"]]
+            if req.get("shard"):
+                i, k = req["shard"]
+                us = us[i::k]
             batches.append((fam, us))
     # pinned witness universes of recorded findings for this property (always run, so that a listed finding is shown on
     # every run and its disappearance after a repair is noticed)
     wdir = os.path.join(os.path.dirname(os.path.dirname(os.path.abspath(__file__))), "witnesses", prop)
-    if "replay" not in req and os.path.isdir(wdir):
+    if "replay" not in req and os.path.isdir(wdir) and (not req.get("shard") or req["shard"][0] == 0):
         ws = []
         for fn in sorted(os.listdir(wdir)):
             if fn.endswith(".json"):
